@@ -111,10 +111,7 @@ func (rr *c09Run) viol(kind, pat, want, got string, extra map[string]any) {
 		rr.perKind = map[string]int{}
 	}
 	rr.perKind[kind]++
-	if rr.perKind[kind] > c09PerKind {
-		rr.st.TotalViolations++
-		return
-	}
+	_ = c09PerKind // volume is handled by stats.violate (ledger mode)
 	rr.st.violate(violation{Kind: kind, Case: rr.idx, Detail: d, Sig: kind + ":" + c09Hex(pat) + ":" + c09Short(got), Expected: c09Short(want), Got: c09Short(got)})
 }
 
